@@ -16,11 +16,16 @@ import json
 import multiprocessing
 import random
 import time
+import warnings
 
 import pyrtl
 from pyrtl.rtllib import muxes, barrel, libutils
 
-RULE = ('[cross family: every helper also applied to wire_struct/wire_matrix instances and components, compared '
+RULE = ('[calling forms: every fixed-signature helper is called positionally, by keywords (both orders) and mixed, '
+        'round-robin; mux also in its deprecated truecase=/falsecase= keyword form and its keyword misuses] '
+        '[bitfield_update_set: EVERY ordered pair of distinct (start,end) keys over {None,-n-1..n+1} for n<=3 (4 in '
+        'thorough), ordered triples / wider wires with one alias per bit interval; overlap decided on bit sets] '
+        '[cross family: every helper also applied to wire_struct/wire_matrix instances and components, compared '
         'with the helper on the equivalent plain wire] configurations of mux/select/enum_mux/sparse_mux/prioritized_mux/MultiSelector/demux/'
         'barrel_shifter/bitfield_update(_set)/match_bitpattern/chop/partition_wire/wire_struct/'
         'wire_matrix (select widths 1-4, input counts incl. non powers of two, default present/absent, '
@@ -138,9 +143,32 @@ ANY = None      # value left open by the documentation
 # Each family: build(cfg, P) -> list of wires; coq(cfg) -> expr; oracle(cfg, ws, env) -> ERR | [value|ANY]
 # oracle values are (value) only; widths are checked against the model.
 
+# ---- calling forms: every helper is called in every form its signature accepts
+FORMS = ('pos', 'kw', 'kw_rev', 'mixed', 'mixed2')
+
+
+def call(fn, form, args, **extra):
+    """args = [(parameter name, value), ...] in signature order; `form` decides which are passed by keyword"""
+    vals = [v for _, v in args]
+    if form == 'kw':
+        return fn(**dict(args), **extra)
+    if form == 'kw_rev':
+        return fn(**dict(reversed(args)), **extra)
+    if form == 'mixed':                       # first argument positional, the others by keyword
+        return fn(vals[0], **dict(args[1:]), **extra)
+    if form == 'mixed2':                      # all but the last positional
+        return fn(*vals[:-1], **dict(args[-1:]), **extra)
+    return fn(*vals, **extra)
+
+
+def form_of(c):
+    return c.get('form', 'pos')
+
+
 # ---- select
 def b_select(c, P):
-    return [pyrtl.select(s_build(P, c['s']), s_build(P, c['t']), s_build(P, c['f']))]
+    return [call(pyrtl.select, form_of(c), [('sel', s_build(P, c['s'])), ('truecase', s_build(P, c['t'])),
+                                            ('falsecase', s_build(P, c['f']))])]
 
 
 def q_select(c):
@@ -155,12 +183,29 @@ def o_select(c, ws, env):
 # ---- mux
 def b_mux(c, P):
     ins = [s_build(P, s) for s in c['ins']]
+    idx = s_build(P, c['idx'])
+    form = form_of(c)
+    if form in ('kwcase', 'kwcase_rev'):
+        # the deprecated but accepted predicate form: ins = [falsecase, truecase] (the index == 0 case first)
+        kw = [('truecase', ins[1]), ('falsecase', ins[0])]
+        return [pyrtl.mux(idx, **dict(kw if form == 'kwcase' else reversed(kw)))]
+    if form == 'kwcase_one':                  # only one of the two cases
+        return [pyrtl.mux(idx, truecase=ins[1])]
+    if form == 'kw_unknown':                  # "only default is allowed as kwarg"
+        return [pyrtl.mux(idx, *ins, default=s_build(P, c['dflt']), foo=1)]
+    if form == 'kw_index':
+        kw = {} if c['dflt'] is None else {'default': s_build(P, c['dflt'])}
+        return [pyrtl.mux(*ins, index=idx, **kw)]       # binds ins[0] to `index` as well -> TypeError
     if c['dflt'] is None:
-        return [pyrtl.mux(s_build(P, c['idx']), *ins)]
-    return [pyrtl.mux(s_build(P, c['idx']), *ins, default=s_build(P, c['dflt']))]
+        return [pyrtl.mux(idx, *ins)]
+    return [pyrtl.mux(idx, *ins, default=s_build(P, c['dflt']))]
 
 
 def q_mux(c):
+    if form_of(c) in ('kwcase', 'kwcase_rev'):      # documented as select(index, truecase, falsecase)
+        return 't_select %s %s %s %s' % (nats(c['ws']), s_coq(c['idx']), s_coq(c['ins'][1]), s_coq(c['ins'][0]))
+    if form_of(c) in ('kwcase_one', 'kw_unknown', 'kw_index'):
+        return 't_mux %s %s [] None' % (nats(c['ws']), s_coq(c['idx']))      # raises
     return 't_mux %s %s %s %s' % (nats(c['ws']), s_coq(c['idx']), lst(s_coq(s) for s in c['ins']),
                                   opt(s_coq(c['dflt'])) if c['dflt'] else 'None')
 
@@ -168,6 +213,10 @@ def q_mux(c):
 def o_mux(c, ws, env):
     k, i = s_val(ws, env, c['idx'])
     n = len(c['ins'])
+    if form_of(c) in ('kwcase_one', 'kw_unknown', 'kw_index'):
+        return ERRU
+    if form_of(c) in ('kwcase', 'kwcase_rev'):       # truecase when the predicate is 1, falsecase when it is 0
+        return [s_val(ws, env, c['ins'][1])[1] if i else s_val(ws, env, c['ins'][0])[1]]
     if n > (1 << k):
         return ERRU
     if n < (1 << k) and c['dflt'] is None:
@@ -179,7 +228,8 @@ def o_mux(c, ws, env):
 
 # ---- prioritized_mux
 def b_pmux(c, P):
-    return [muxes.prioritized_mux([s_build(P, s) for s in c['sels']], [s_build(P, s) for s in c['vals']])]
+    return [call(muxes.prioritized_mux, form_of(c), [('selects', [s_build(P, s) for s in c['sels']]),
+                                                     ('vals', [s_build(P, s) for s in c['vals']])])]
 
 
 def q_pmux(c):
@@ -200,7 +250,8 @@ def b_sparse(c, P):
     vals = {k: s_build(P, s) for k, s in c['vals']}
     if c['dflt'] is not None:
         vals['default'] = s_build(P, c['dflt'])
-    return [muxes.sparse_mux(s_build(P, c['sel']), dict(vals))]      # sparse_mux mutates its argument
+    return [call(muxes.sparse_mux, form_of(c), [('sel', s_build(P, c['sel'])),
+                                                ('vals', dict(vals))])]      # sparse_mux mutates its argument
 
 
 def q_sparse(c):
@@ -230,7 +281,8 @@ def b_enum(c, P):
     for k, s in c['table']:
         table[pyrtl.otherwise if k is None else E(k)] = s_build(P, s)
     d = None if c['dflt'] is None else s_build(P, c['dflt'])
-    return [pyrtl.enum_mux(s_build(P, c['cntrl']), table, default=d, strict=c['strict'])]
+    return [call(pyrtl.enum_mux, form_of(c), [('cntrl', s_build(P, c['cntrl'])), ('table', table), ('default', d),
+                                              ('strict', c['strict'])])]
 
 
 def q_enum(c):
@@ -263,12 +315,20 @@ def o_enum(c, ws, env):
 # ---- MultiSelector
 def b_multi(c, P):
     dests = [pyrtl.WireVector(w) for w in c['dws']]
-    with contextlib.redirect_stdout(io.StringIO()), muxes.MultiSelector(s_build(P, c['sel']), *dests) as ms:
+
+    def fill(ms):
         for k, data in c['opts']:
             if k is None:
                 ms.default(*[s_build(P, s) for s in data])
             else:
                 ms.option(k, *[s_build(P, s) for s in data])
+    if form_of(c) in ('kw_rev', 'mixed2'):           # without the `with` statement: explicit finalize()
+        ms = muxes.MultiSelector(s_build(P, c['sel']), *dests)
+        fill(ms)
+        ms.finalize()
+        return dests
+    with contextlib.redirect_stdout(io.StringIO()), muxes.MultiSelector(s_build(P, c['sel']), *dests) as ms:
+        fill(ms)
     return dests
 
 
@@ -299,7 +359,7 @@ def o_multi(c, ws, env):
 
 # ---- demux
 def b_demux(c, P):
-    return list(muxes.demux(s_build(P, c['sel'])))
+    return list(call(muxes.demux, form_of(c), [('select', s_build(P, c['sel']))]))
 
 
 def q_demux(c):
@@ -313,16 +373,27 @@ def o_demux(c, ws, env):
 
 # ---- barrel_shifter
 def b_barrel(c, P):
-    return [barrel.barrel_shifter(s_build(P, c['x']), s_build(P, c['bit_in']), s_build(P, c['dir']),
-                                  s_build(P, c['sd']))]
+    extra = {'wrap_around': c['wrap']} if 'wrap' in c else {}
+    return [call(barrel.barrel_shifter, form_of(c), [('bits_to_shift', s_build(P, c['x'])),
+                                                     ('bit_in', s_build(P, c['bit_in'])),
+                                                     ('direction', s_build(P, c['dir'])),
+                                                     ('shift_dist', s_build(P, c['sd']))], **extra)]
+
+
+def q_raises(c):
+    return 't_chop %s (SW 0) []%%nat' % nats(c['ws'])       # a model expression that is None (= raises)
 
 
 def q_barrel(c):
+    if c.get('wrap'):
+        return q_raises(c)
     return 't_barrel %s %s %s %s %s' % (nats(c['ws']), s_coq(c['x']), s_coq(c['bit_in']), s_coq(c['dir']),
                                         s_coq(c['sd']))
 
 
 def o_barrel(c, ws, env):
+    if c.get('wrap'):
+        return ERR                               # wrap_around: "currently not implemented"
     n, x = s_val(ws, env, c['x'])
     b = s_val(ws, env, c['bit_in'])[1]
     d = s_val(ws, env, c['dir'])[1]
@@ -341,7 +412,9 @@ def py_indices(n, s, e):
 
 
 def b_bfu(c, P):
-    return [pyrtl.bitfield_update(s_build(P, c['w']), c['s'], c['e'], s_build(P, c['nv']), truncating=c['tr'])]
+    return [call(pyrtl.bitfield_update, form_of(c), [('w', s_build(P, c['w'])), ('range_start', c['s']),
+                                                     ('range_end', c['e']), ('newvalue', s_build(P, c['nv'])),
+                                                     ('truncating', c['tr'])])]
 
 
 def q_bfu(c):
@@ -372,8 +445,9 @@ def o_bfu(c, ws, env):
 
 # ---- bitfield_update_set
 def b_bfus(c, P):
-    ups = {(s, e): s_build(P, nv) for (s, e, nv) in c['ups']}
-    return [pyrtl.bitfield_update_set(s_build(P, c['w']), ups, truncating=c['tr'])]
+    ups = {(s, e): s_build(P, nv) for (s, e, nv) in c['ups']}        # dict order = the order in c['ups']
+    return [call(pyrtl.bitfield_update_set, form_of(c), [('w', s_build(P, c['w'])), ('update_set', ups),
+                                                         ('truncating', c['tr'])])]
 
 
 def q_bfus(c):
@@ -405,7 +479,8 @@ def o_bfus(c, ws, env):
 
 # ---- match_bitpattern
 def b_mbp(c, P):
-    m, fields = pyrtl.match_bitpattern(s_build(P, c['w']), c['pat'], c.get('fmap'))
+    m, fields = call(pyrtl.match_bitpattern, form_of(c), [('w', s_build(P, c['w'])), ('bitpattern', c['pat']),
+                                                          ('field_map', c.get('fmap'))])
     return [m] + list(fields)
 
 
@@ -467,7 +542,7 @@ def o_chop(c, ws, env):
 
 
 def b_part(c, P):
-    return libutils.partition_wire(s_build(P, c['w']), c['size'])
+    return call(libutils.partition_wire, form_of(c), [('wire', s_build(P, c['w'])), ('partition_size', c['size'])])
 
 
 def q_part(c):
@@ -545,6 +620,8 @@ def b_sslice(c, P):
     v = s_build(P, c['v'])
     if c['sch'][0] == 'S':
         inst = cls(**{cls._class_name: v})
+    elif form_of(c) in ('pos', 'mixed2'):        # wire_matrix(name, block, concatenated_type, component_type, values)
+        inst = cls('', None, pyrtl.WireVector, pyrtl.WireVector, [v])
     else:
         inst = cls(values=[v])
     return sch_flat(inst, c['sch'])
@@ -680,7 +757,7 @@ def cross_apply(c, P, t):
         return [barrel.barrel_shifter(t, P[1], P[2], P[3])]
     if op in SHIFTS:
         amount = c['k'] if 'k' in c else P[1]      # Python int amount, or a wire (barrel shifter)
-        return [SHIFTS[op](t, amount)]
+        return [call(SHIFTS[op], form_of(c), [('bits_to_shift', t), ('shift_amount', amount)])]
     raise ValueError(op)
 
 
@@ -792,6 +869,8 @@ def gen_cross(rng, tier):
 
 
 PAIRWISE = ('wrapped', 'cross')
+FORMABLE = ('select', 'prioritized_mux', 'sparse_mux', 'enum_mux', 'MultiSelector', 'demux', 'barrel_shifter',
+            'bitfield_update', 'bitfield_update_set', 'match_bitpattern', 'partition_wire', 'struct_slice', 'cross')
 
 FAMS = {
     'select': (b_select, q_select, o_select), 'mux': (b_mux, q_mux, o_mux),
@@ -820,6 +899,7 @@ def run_group(args):
     ws, cfgs = args
     pyrtl.reset_working_block()
     pyrtl.set_debug_mode(False)
+    warnings.simplefilter('ignore')             # the deprecated mux keyword form warns
     block = pyrtl.working_block()
     P = [pyrtl.Input(w, 'p%d' % i) for i, w in enumerate(ws)]
     res = []
@@ -951,6 +1031,18 @@ def gen_mux(rng, tier):
             out.append({'fam': 'mux', 'ws': [k], 'idx': ('W', 0), 'ins': [('I', i) for i in range(m)],
                         'dflt': ('I', 31)})
         out.append({'fam': 'mux', 'ws': [k], 'idx': ('W', 0), 'ins': [('I', i) for i in range(full)], 'dflt': None})
+    # the other calling forms mux accepts: the predicate keywords truecase= / falsecase= (deprecated, still
+    # accepted, documented as select), and the keyword misuses that must raise
+    ws = [1] + DATA_POOL
+    pairs = [[('W', 1), ('W', 2)], [('W', 2), ('W', 1)], [('W', 3), ('W', 2)], [('I', 5), ('W', 1)], [('W', 2), ('I', 200)],
+             [('I', 0), ('I', 1)], [('C', 3, 6), ('W', 3)]]
+    for ins in pairs + [[rand_src(rng, 1, DATA_POOL), rand_src(rng, 1, DATA_POOL)] for _ in range(4 if tier == 'quick' else 20)]:
+        for form in ('kwcase', 'kwcase_rev', 'pos'):
+            out.append({'fam': 'mux', 'ws': ws, 'idx': ('W', 0), 'ins': ins, 'dflt': None, 'form': form})
+    out.append({'fam': 'mux', 'ws': [3, 2], 'idx': ('S', 0, 1, 2), 'ins': [('W', 1), ('S', 0, 0, 2)], 'dflt': None,
+                'form': 'kwcase'})
+    for form in ('kwcase_one', 'kw_unknown', 'kw_index'):
+        out.append({'fam': 'mux', 'ws': ws, 'idx': ('W', 0), 'ins': [('W', 1), ('W', 2)], 'dflt': ('W', 3), 'form': form})
     return out
 
 
@@ -1061,6 +1153,9 @@ def gen_demux(rng, tier):
 def gen_barrel(rng, tier):
     out = []
     lim = 10 if tier == 'quick' else 13
+    for wrap in (0, 1):
+        out.append({'fam': 'barrel_shifter', 'ws': [3, 1, 1, 2], 'x': ('W', 0), 'bit_in': ('W', 1), 'dir': ('W', 2),
+                    'sd': ('W', 3), 'wrap': wrap, 'form': 'pos'})
     for w in range(1, 9):
         for sdw in range(1, 6):
             if w + sdw + 2 <= lim:
@@ -1134,6 +1229,57 @@ def gen_bfus(rng, tier):
                 used = (used + take) % n
             out.append({'fam': 'bitfield_update_set', 'ws': ws, 'w': ('W', 0), 'ups': ups,
                         'tr': rng.random() < 0.3})
+    return out
+
+
+def nonempty_ranges(n):
+    """every (start, end) over {None, -n-1..n+1} that addresses at least one bit of an n-bit wire"""
+    return [(s, e) for s in bounds(n) for e in bounds(n) if py_indices(n, s, e)]
+
+
+def bfus_cfg(n, ranges, tr=False):
+    ups = []
+    off = 0
+    for (s, e) in ranges:
+        m = max(1, len(py_indices(n, s, e)))
+        if off + m > n:
+            off = 0
+        ups.append((s, e, ('S', 1, off, off + m)))
+        off += m
+    return {'fam': 'bitfield_update_set', 'ws': [n, n], 'w': ('W', 0), 'ups': ups, 'tr': tr, 'exhaustive': True}
+
+
+def gen_bfus_sets(rng, tier):
+    """bitfield_update_set over EVERY set of ranges of a small wire, in every dict order: every ordered pair of
+    distinct (start, end) keys incl. None / negative / clamped aliases; ordered triples and wider wires with one
+    alias per bit interval (drawn per use).  The oracle decides overlap on the addressed bit SETS."""
+    out = []
+    nfull = 3 if tier == 'quick' else 4
+    for n in range(1, nfull + 1):
+        rs = nonempty_ranges(n)
+        for r1 in rs:
+            for r2 in rs:
+                if r1 != r2:
+                    out.append(bfus_cfg(n, [r1, r2]))
+        empties = [(s, e) for s in bounds(n) for e in bounds(n) if not py_indices(n, s, e)]
+        for r in rng.sample(empties, min(6, len(empties))):     # an empty range anywhere in the set
+            out.append(bfus_cfg(n, [rng.choice(rs), r]))
+            out.append(bfus_cfg(n, [r, rng.choice(rs)]))
+
+    def by_interval(n):
+        d = {}
+        for r in nonempty_ranges(n):
+            idx = py_indices(n, *r)
+            d.setdefault((idx[0], idx[-1] + 1), []).append(r)
+        return d
+    for n, k, limit in ([(4, 2, None), (3, 3, None), (4, 3, 260), (5, 2, 120)] if tier == 'quick' else
+                        [(5, 2, None), (6, 2, None), (3, 3, None), (4, 3, None), (5, 3, 1500), (4, 4, 1500)]):
+        iv = by_interval(n)
+        combos = list(itertools.permutations(sorted(iv), k))
+        if limit is not None and len(combos) > limit:
+            combos = rng.sample(combos, limit)
+        for combo in combos:
+            out.append(bfus_cfg(n, [rng.choice(iv[i]) for i in combo]))
     return out
 
 
@@ -1326,7 +1472,7 @@ def gen_wrap(rng, tier):
 
 GENS = [('cross', gen_cross), ('select', gen_select), ('mux', gen_mux), ('prioritized_mux', gen_pmux), ('sparse_mux', gen_sparse),
         ('enum_mux', gen_enum), ('MultiSelector', gen_multi), ('demux', gen_demux), ('barrel_shifter', gen_barrel),
-        ('bitfield_update', gen_bfu), ('bitfield_update_set', gen_bfus), ('match_bitpattern', gen_mbp),
+        ('bitfield_update', gen_bfu), ('bitfield_update_set', gen_bfus), ('bitfield_update_set_exhaustive', gen_bfus_sets), ('match_bitpattern', gen_mbp),
         ('chop', gen_chop), ('partition_wire', gen_part), ('struct', gen_struct),
         ('struct_mismatch', gen_struct_mismatch), ('wrapped', gen_wrap)]
 
@@ -1400,7 +1546,7 @@ def run_configs(ctx, cfgs):
         model = {}
         t_q = time.time()
         try:
-            mres = ctx.coq_eval(exprs, IMPORTS, tag='c14', shard=50, jobs=14)
+            mres = ctx.coq_eval(exprs, IMPORTS, tag='c14', shard=120, jobs=14)
             model = dict(zip(qidx, mres))
         except Exception as e:
             ctx.model_mismatch('Front/C14Harness.v could not be evaluated: %s' % str(e)[-800:], {})
@@ -1421,6 +1567,7 @@ def run_configs(ctx, cfgs):
         ctx.count('families', fam)
         ctx.count('outcome', 'raises' if r['err'] else 'value')
         ctx.count('pool_bits', sum(c['ws']))
+        ctx.count('calling_form', '%s:%s' % (fam, form_of(c)))
         if 'depth' in c:
             ctx.count('schema_depth', c['depth'])
         if 'driver_delta' in c:
@@ -1460,11 +1607,24 @@ def run_configs(ctx, cfgs):
                     fam, x, r['tab'][x], tab[x]), rep)
 
 
-def run(ctx):
-    ctx._c14_sampled = set()
+def all_configs(ctx):
     cfgs = []
     for name, g in GENS:
         cfgs += g(ctx.sub_rng('gen', name), ctx.tier)
+    # every fixed-signature helper is called in every form its signature accepts (positional, all keywords,
+    # keywords in reverse order, mixed), assigned round-robin per family
+    nth = {}
+    for c in cfgs:
+        if c['fam'] in FORMABLE and 'form' not in c:
+            k = nth.get(c['fam'], 0)
+            nth[c['fam']] = k + 1
+            c['form'] = FORMS[k % len(FORMS)]
+    return cfgs
+
+
+def run(ctx):
+    ctx._c14_sampled = set()
+    cfgs = all_configs(ctx)
     check_slices(ctx)
     run_configs(ctx, cfgs)
 
